@@ -46,6 +46,7 @@ type v06Part struct {
 	Ro       bool     `json:"ro"`
 	Roeff    bool     `json:"roeff"`
 	Rec      bool     `json:"rec"`
+	MinISR   int      `json:"minisr"`
 }
 
 type v06Proto struct {
@@ -60,7 +61,46 @@ type v06Proto struct {
 
 type v06Stream struct {
 	Tomb  bool      `json:"tomb"`
+	Subj  string    `json:"subj"`
+	Cfg   string    `json:"cfg"`
+	Ts    int64     `json:"ts"`
 	Parts []v06Part `json:"parts"`
+}
+
+// v06Head = the stream-level fields a snapshot carries by value
+type v06Head struct {
+	Subj string `json:"subj"`
+	Cfg  string `json:"cfg"`
+	Ts   int64  `json:"ts"`
+}
+
+// stream-level configurations used by the behaviours, by id
+func v06Config(id string) *proto.StreamConfig {
+	if id == "k1" {
+		return &proto.StreamConfig{MinIsr: &proto.NullableInt32{Value: 2},
+			OptimisticConcurrencyControl: &proto.NullableBool{Value: true},
+			RetentionMaxMessages:         &proto.NullableInt64{Value: 1000}}
+	}
+	return nil
+}
+
+// v06ConfigID names the configuration a stream really carries
+func v06ConfigID(c *proto.StreamConfig) string {
+	if c == nil {
+		return "none"
+	}
+	b, err := c.Marshal()
+	if err != nil {
+		return "other:" + err.Error()
+	}
+	if len(b) == 0 {
+		return "none"
+	}
+	k1, _ := v06Config("k1").Marshal()
+	if bytes.Equal(b, k1) {
+		return "k1"
+	}
+	return fmt.Sprintf("other:%x", b)
 }
 
 type v06Member struct {
@@ -79,6 +119,7 @@ type v06Ref struct {
 	Idx    uint64                  `json:"idx"`
 	Live   []string                `json:"live"`
 	Frozen map[string][]v06Proto   `json:"frozen"`
+	Heads  map[string]v06Head      `json:"heads"`
 	Groups map[string]v06SnapGroup `json:"groups"`
 }
 
@@ -86,6 +127,7 @@ type v06Snap struct {
 	Has     bool                    `json:"has"`
 	Idx     uint64                  `json:"idx"`
 	Streams map[string][]v06Proto   `json:"streams"`
+	Heads   map[string]v06Head      `json:"heads"`
 	Groups  map[string]v06SnapGroup `json:"groups"`
 }
 
@@ -202,10 +244,12 @@ func v06BuildOp(o map[string]interface{}) *proto.RaftLog {
 	switch vStr(o, "op") {
 	case "CreateStream":
 		s, n := vStr(o, "s"), int(vInt(o, "n"))
-		st := &proto.Stream{Name: s, Subject: s, CreationTimestamp: 1}
+		subj := vStrDef(o, "subj", s)
+		st := &proto.Stream{Name: s, Subject: subj, CreationTimestamp: vIntDef(o, "ts", 7),
+			Config: v06Config(vStrDef(o, "cfg", "none"))}
 		for i := 0; i < n; i++ {
 			r := vFStrs(o, "R")
-			st.Partitions = append(st.Partitions, &proto.Partition{Subject: s, Stream: s, Id: int32(i),
+			st.Partitions = append(st.Partitions, &proto.Partition{Subject: subj, Stream: s, Id: int32(i),
 				ReplicationFactor: int32(len(r)), Replicas: r, Isr: append([]string{}, r...), Leader: vStr(o, "ldr")})
 		}
 		return &proto.RaftLog{Op: proto.Op_CREATE_STREAM, CreateStreamOp: &proto.CreateStreamOp{Stream: st}}
@@ -268,15 +312,27 @@ func v06Streams(s *Server) map[string]v06Stream {
 			}
 			leader, lepoch := p.GetLeader()
 			p.mu.RLock()
-			rec := p.recovered
+			rec, minISR := p.recovered, p.minISR
 			p.mu.RUnlock()
-			ps[i] = v06Part{Rec: rec, Replicas: v06Sorted(p.GetReplicas()), Isr: v06Sorted(p.GetISR()), Leader: leader,
+			ps[i] = v06Part{Rec: rec, MinISR: minISR, Replicas: v06Sorted(p.GetReplicas()), Isr: v06Sorted(p.GetISR()), Leader: leader,
 				Lepoch: lepoch, Epoch: p.GetEpoch(), Paused: p.IsPaused(), Ppaused: p.Partition.GetPaused(),
 				Ro: p.Partition.GetReadonly(), Roeff: p.IsReadonly()}
 		}
-		out[st.GetName()] = v06Stream{Tomb: st.IsTombstoned(), Parts: ps}
+		out[st.GetName()] = v06Stream{Tomb: st.IsTombstoned(), Subj: st.GetSubject(), Cfg: v06ConfigID(st.GetConfig()),
+			Ts: v06Ts(st.GetCreationTime()), Parts: ps}
 	}
 	return out
+}
+
+func v06Ts(tm time.Time) int64 {
+	if tm.IsZero() {
+		return 0
+	}
+	return tm.UnixNano()
+}
+
+func v06HeadOf(ps *proto.Stream) v06Head {
+	return v06Head{Subj: ps.Subject, Cfg: v06ConfigID(ps.Config), Ts: ps.CreationTimestamp}
 }
 
 func v06Groups(s *Server, ids []string) map[string]v12Group {
@@ -362,12 +418,14 @@ type v06Run struct {
 }
 
 func (r *v06Run) sref() v06Ref {
-	ref := v06Ref{Live: []string{}, Frozen: map[string][]v06Proto{}, Groups: map[string]v06SnapGroup{}}
+	ref := v06Ref{Live: []string{}, Frozen: map[string][]v06Proto{}, Heads: map[string]v06Head{},
+		Groups: map[string]v06SnapGroup{}}
 	if r.pending == nil {
 		return ref
 	}
 	ref.Has, ref.Idx = true, r.pendingIdx
 	for _, ps := range r.pending.Streams {
+		ref.Heads[ps.Name] = v06HeadOf(ps)
 		live := false
 		if st := r.a.metadata.GetStream(ps.Name); st != nil && len(ps.Partitions) > 0 {
 			if p := st.GetPartition(ps.Partitions[0].Id); p != nil && p.Partition == ps.Partitions[0] {
@@ -390,7 +448,7 @@ func (r *v06Run) sref() v06Ref {
 }
 
 func (r *v06Run) snap() v06Snap {
-	sn := v06Snap{Streams: map[string][]v06Proto{}, Groups: map[string]v06SnapGroup{}}
+	sn := v06Snap{Streams: map[string][]v06Proto{}, Heads: map[string]v06Head{}, Groups: map[string]v06SnapGroup{}}
 	if r.snapBytes == nil {
 		return sn
 	}
@@ -405,6 +463,7 @@ func (r *v06Run) snap() v06Snap {
 			fr[p.Id] = v06ProtoOf(p)
 		}
 		sn.Streams[ps.Name] = fr
+		sn.Heads[ps.Name] = v06HeadOf(ps)
 	}
 	sn.Groups = v06SnapGroups(ms.Groups)
 	return sn
@@ -604,7 +663,6 @@ func TestVerifMetadataFSM(t *testing.T) {
 	if err != nil {
 		t.Fatal(err)
 	}
-	defer os.RemoveAll(base)
 	for _, b := range sf.Behaviours {
 		run := &v06Run{dirA: filepath.Join(base, fmt.Sprintf("a%d", b.ID)), dirB: filepath.Join(base, fmt.Sprintf("b%d", b.ID)),
 			groupIDs: vFStrs(b.Cfg, "groups"), mode: "live"}
@@ -612,12 +670,21 @@ func TestVerifMetadataFSM(t *testing.T) {
 		run.b = v06NewServer("B", run.dirB)
 		st, ot := run.state(true)
 		tw.Emit(v06Event{T: b.ID, A: "Open", Args: map[string]interface{}{}, St: st, Other: ot, Obs: v06Obs{A: "Open"}})
+		failed := false
 		for _, step := range b.Steps {
-			tw.Emit(run.step(b.ID, step))
+			ev := run.step(b.ID, step)
+			failed = failed || ev.Obs.Err != ""
+			tw.Emit(ev)
 		}
 		v06Close(run.a)
 		v06Close(run.b)
-		os.RemoveAll(run.dirA)
-		os.RemoveAll(run.dirB)
+		// a failed Restore / Resume can leave an open commit log behind (never closed by
+		// the code under test) whose checkpoint loop panics the process once its
+		// directory is gone: such directories stay until the test process has exited
+		// (they live under $TMPDIR, which the check removes)
+		if !failed {
+			os.RemoveAll(run.dirA)
+			os.RemoveAll(run.dirB)
+		}
 	}
 }
